@@ -16,9 +16,84 @@ WHAT = {
 }
 
 
+def ns_map():
+    """tag -> most frequent namespace in the corpus (nested serializers rely on their parent's default namespace)"""
+    import collections
+    import xml.etree.ElementTree as ET
+    ns = collections.defaultdict(collections.Counter)
+    for l in open(codecdrv.SEEDS):
+        try:
+            root = ET.fromstring(json.loads(l)["xml"])
+        except Exception:
+            continue
+        for el in root.iter():
+            if el.tag.startswith("{"):
+                u, t = el.tag[1:].split("}")
+                ns[t][u] += 1
+    return {t: c.most_common(1)[0][0] for t, c in ns.items()}
+
+
+def run_fields(binary, seed, nsm):
+    """layer 1: setter-built objects. Restarts the harness behind a field that kills it."""
+    import subprocess
+    skip, recs, crashes = 0, [], []
+    for _ in range(60):
+        try:
+            p = subprocess.run([binary], input=json.dumps({"n": 1, "seed": seed, "ns": nsm, "skip": skip}) + "\n", capture_output=True, text=True, env=vf.env_for(), timeout=1800)
+        except subprocess.TimeoutExpired:
+            crashes.append({"field": "?", "sig": "timeout", "stderr": ""})
+            break
+        last, done = None, False
+        for l in p.stdout.splitlines():
+            if l.startswith("FIELD"):
+                last = l.split()
+            elif l.startswith("{"):
+                r = json.loads(l)
+                if r.get("summary"):
+                    done = True
+                else:
+                    recs.append(r)
+        if done:
+            break
+        if last is None:
+            raise vf.HarnessFailure("fields harness died before the first field: %s" % p.stderr[-2000:])
+        crashes.append({"field": "%s.%s" % (last[2], last[3]), "sig": vf.san_signature(p.stderr) or "abnormal exit %s" % p.returncode, "stderr": p.stderr[-3000:]})
+        skip = int(last[1])
+    return recs, crashes
+
+
+def fields_layer(V, tier):
+    fb = vf.build_harness("fields")
+    nsm = ns_map()
+    seeds = [vf.SEED * 1000 + i for i in range(1 if tier == "quick" else 48)]
+    out = vf.pmap(lambda sd: run_fields(fb, sd, nsm), seeds)
+    st = {"fields": set(), "live_fields": set(), "live_states": 0, "values": 0, "excluded": {}, "dormant": set()}
+    for recs, crashes in out:
+        for c in crashes:
+            V.violation("setter-built %s crash %s" % (c["field"], c["sig"]), "%s: sanitizer report / abnormal exit while serializing or parsing an object built with the setters" % c["field"], c)
+        for r in recs:
+            k = "%s.%s" % (r["cls"], r["field"])
+            if "excluded" in r:
+                st["excluded"][k] = r["excluded"]
+                continue
+            st["fields"].add(k)
+            if not r["live"]:
+                continue
+            st["live_fields"].add(k)
+            st["live_states"] += 1
+            st["values"] += r["tried"]
+            for f in r["fails"]:
+                kind = "output-not-wellformed" if "not well-formed" in f["got"] else "own-output-refused" if "refused" in f["got"] else "value-lost"
+                V.violation("setter-built %s %s" % (k, kind), "%s: a value of the field's type set with the setter is not what the getter reports after serialize -> parse (state %s)" % (k, r["state"]),
+                            {"class": r["cls"], "setter": r["field"], "state": r["state"], "value_set": f["value"], "value_after_roundtrip": f["got"], "xml": f["xml"]})
+    st["dormant"] = sorted(st["fields"] - st["live_fields"])
+    return st
+
+
 def main(tier, replay=None):
     V = vf.Verdict("C01", tier)
     binary = vf.build_harness("codec")
+    fst = fields_layer(V, tier) if not replay else None
     W = vf.NPROC
     maxpos = 3 if tier == "quick" else 1000
     jobs = [("scalars",)] + [("c01doc", codecdrv.SEEDS, vf.SEED, w, W, maxpos) for w in range(W)]
@@ -46,12 +121,18 @@ def main(tier, replay=None):
     no_rt = [k for k, v in types.items() if v[1] == 0 and k != "StreamErrorElement"]
     tot = [sum(v[i] for v in types.values()) for i in range(6)]
     samples.append({"type": "QXmppMessage", "counters[pairs, own-output-stable, positions, transparent, hostile-ok, weak-ok]": types.get("QXmppMessage")})
-    cov = {"evaluations": evals, "distinct_nontrivial": tot[4] + tot[5] + tot[1],
-           "rule": "layer 0: exhaustive 8/16-bit and boundary/random 32/64-bit integer round trips, booleans, base64 of every length 0..300, 40000 date-times, all minute offsets; "
+    if fst:
+        evals += fst["values"]
+    cov = {"evaluations": evals, "distinct_nontrivial": tot[4] + tot[5] + tot[1] + (fst["live_states"] if fst else 0),
+           "setter_built": None if not fst else {"fields": len(fst["fields"]), "fields_live_in_some_state": len(fst["live_fields"]), "live_field_states": fst["live_states"], "values_round_tripped": fst["values"],
+                                                  "dormant_fields_not_judged": fst["dormant"], "excluded": fst["excluded"]},
+           "rule": "layer 1: objects built with the library's setters: for every (class, setter, getter) of harness/fields_gen.h + fields_hand.h and every object state in which a benign probe value survives serialize->parse->getter, "
+                   "boundary and random values of the setter's C++ parameter type (integers at all width boundaries, doubles with 12+ significant digits, hostile strings, date-times with ms and offsets, URLs, lists) must survive too; "
+                   "layer 0: exhaustive 8/16-bit and boundary/random 32/64-bit integer round trips, booleans, base64 of every length 0..300, 40000 date-times, all minute offsets; "
                    "layer 2/3: for every (seed document, registered type) pair the type admits: own output must be stable; every text/attribute position (quick: <=3 sampled per pair) is probed with a benign token - "
                    "if that round-trips exactly the position is free text and 4 hostile values (markup, quotes, non-BMP, interior whitespace) must round-trip verbatim without changing the element skeleton; "
                    "on other positions only self-consistency of the output is required. distinct_nontrivial = stable own outputs + hostile substitutions confirmed + weak checks confirmed",
            "totals[pairs, own-output-stable, positions, transparent, hostile-ok, weak-ok]": tot, "per_type": types, "types_without_admitted_roundtrip": no_rt, "samples": samples}
-    floors = {"pairs>0": tot[0] > 0, "transparent>0": tot[3] > 0, "types_with_roundtrip>=100": (len(types) - len(no_rt)) >= 100} if not replay else {}
+    floors = {"pairs>0": tot[0] > 0, "transparent>0": tot[3] > 0, "types_with_roundtrip>=100": (len(types) - len(no_rt)) >= 100, "setter_fields_live>=200": len(fst["live_fields"]) >= 200} if not replay else {}
     V.finish(cov, "exploration", ["Qt's XML reader/writer/DOM are trusted", "seed documents come from the repository's tests; types with no seed are only reached by layer 0 and by C02's cross-application",
-                                  "setter-built objects (layer 1 of DESIGN) are covered for QXmppMessage in the C17 check only"], floors)
+                                  "setter-built objects cover the scalar/string/date/list setters of the registered classes (enum-, struct- and list-of-object-valued setters are reached through the document layers only); a field is judged only in object states where a benign value survives"], floors)
